@@ -3,7 +3,7 @@
  *   pad_driver <seed> <maxlen> <out.ndjson> <bs> [<bs> ...]                                   */
 #include "common.h"
 
-static void do_pad(vrng *r, size_t len, size_t bs, size_t cap) {
+static void do_pad_form(vrng *r, size_t len, size_t bs, size_t cap, int nullp) {
     /* the buffer holds max(cap, len) bytes and ends at a guard page: with a declared capacity below the data length
      * the call must still fail without writing (a write past the buffer faults) */
     size_t room = cap > len ? cap : len;
@@ -13,16 +13,21 @@ static void do_pad(vrng *r, size_t len, size_t bs, size_t cap) {
     if (len && vrng_below(r, 3) == 0) buf[len - 1] = vrng_below(r, 2) ? 0x80 : 0x00;   /* data ending like padding */
     memcpy(orig, buf, room);
     size_t plen = 4242;
-    int ret = sodium_pad(&plen, buf, len, bs, cap);
+    /* nullp: the form that does not ask for the padded length (padded_buflen_p = NULL); the region compared is then located with
+     * len + (bs - len mod bs), clipped to the capacity - what it must contain is still lib/Pad.tla's business */
+    int ret = sodium_pad(nullp ? NULL : &plen, buf, len, bs, cap);
+    if (nullp) plen = (ret == 0 && bs > 0) ? len + (bs - len % bs) : 0;
     int data_ok = memcmp(buf, orig, len) == 0;
     size_t shown = (ret == 0 && plen <= cap) ? plen : 0;
     int rest_ok = 1;
     for (size_t i = (ret == 0 ? shown : 0); i < room; i++) rest_ok &= buf[i] == orig[i];
-    fprintf(v_out, "{\"op\":\"pad\",\"len\":%zu,\"bs\":%zu,\"cap\":%zu,\"ret\":%d,\"plen\":%zu,", len, bs, cap, ret, plen);
+    fprintf(v_out, "{\"op\":\"pad\",\"nullp\":%s,\"len\":%zu,\"bs\":%zu,\"cap\":%zu,\"ret\":%d,\"plen\":%zu,", nullp ? "true" : "false", len, bs, cap, ret, plen);
     v_emit_bytes("data", orig, len); fputc(',', v_out); v_emit_bytes("buf", buf, shown);
     fprintf(v_out, ",\"data_ok\":%s,\"rest_ok\":%s}\n", data_ok ? "true" : "false", rest_ok ? "true" : "false");
     free(orig); v_gfree(&g);
 }
+
+static void do_pad(vrng *r, size_t len, size_t bs, size_t cap) { do_pad_form(r, len, bs, cap, 0); do_pad_form(r, len, bs, cap, 1); }
 
 /* the final block is placed against a PROT_NONE page (before it: side 0, after it: side 1); the bytes in
  * front of the final block do not exist at all when side = 0, so reading them faults */
